@@ -179,6 +179,8 @@ def _families(names, seed, tier):
             specs += CP.family_packages()
         elif n == 'frontend':
             specs += CP.family_frontend()
+        elif n == 'variadic':
+            specs += CP.family_variadic()
         elif n == 'random_reject':
             specs += CP.family_random_reject(seed, 45 if tier == 'quick' else 300)
         elif n == 'random':
@@ -508,10 +510,22 @@ PROPS['C07']['thorough'] = PROPS['C07']['thorough'] + [sideb(['reject', 'random_
 PROPS['C07']['bounds_text'] += '; side B reject family: cycles closed by a function, struct, field provider or a binding, in direct, nested, inline and re-exporting sets, with the result on and off the cycle, through the real front end; the wire binary runs under a 900 s / 12 GB limit (60 s / 3 GB per package when searching for the culprit) and being stopped by it is a violation'
 
 # H_newset: the front end's merging of provider sets (processExpr -> processNewSet -> objectCache -> buildProviderMap ->
-# verifyAcyclic) on every argument list of <= 2 (3) items of a 19-item pool (providers, bindings, set variables, an alias,
+# verifyAcyclic) on every argument list of <= 2 (3) items of a 21-item pool (providers, bindings, set variables, an alias,
 # inline sets); added after seeded changes S45 / S47, which sit in processNewSet, in front of H_bpm and H_acyclic
-for _p in ('C05', 'C07', 'C10', 'C11'):
-    PROPS[_p]['quick'] = PROPS[_p]['quick'] + [tspec('H_newset', args=2, real_typestring=1)]
-    PROPS[_p]['thorough'] = PROPS[_p]['thorough'] + [tspec('H_newset', args=3, real_typestring=1)]
+for _p in ('C05', 'C06', 'C07', 'C10', 'C11'):
+    PROPS[_p]['quick'] = PROPS[_p]['quick'] + [tspec('H_newset', args=2, real_typestring=1), tspec('H_newset', args=1, warm=1, real_typestring=1)]
+    PROPS[_p]['thorough'] = PROPS[_p]['thorough'] + [tspec('H_newset', args=3, real_typestring=1), tspec('H_newset', args=2, warm=1, real_typestring=1)]
     PROPS[_p]['covers'] = dict(PROPS[_p].get('covers', {}), H_newset=['newset-accepted', 'newset-refused'])
-    PROPS[_p]['bounds_text'] += '; H_newset: wire.NewSet calls with every list of <=2 (3) arguments over a pool of 19 items (7 provider functions, 2 bindings, 4 set variables one of which aliases another, 6 inline sets incl. nested ones), real go/ast + go/types, oracle = reference model of the documented rules (multiplicity through nested sets, co-located bindings, cycles)'
+    PROPS[_p]['bounds_text'] += '; H_newset: wire.NewSet calls with every list of <=2 (3) arguments over a pool of 21 items (7 provider functions, 2 bindings, 5 set variables one of which aliases another, 7 inline sets incl. nested ones), real go/ast + go/types, oracle = reference model of the documented rules (multiplicity through nested sets, co-located bindings, cycles); variant warm=1: one of ten set-valued items is analysed first with the same object cache and must not influence the verdict (no state leaks between the analyses of two sets)'
+
+
+# variadic providers in every result shape (added after seeded change S63: the error check after a variadic call was dropped)
+for _p in ('C01', 'C02', 'C03', 'C04'):
+    for _t in ('quick', 'thorough'):
+        PROPS[_p][_t] = PROPS[_p][_t] + [sideb(['variadic'])]
+
+# two interface bindings passed directly to one wire.Build, both needed (added after seeded change S68: one source record
+# shared by all bindings of a set made the first of two used bindings "unused")
+for _p in ('C08', 'C10', 'C11'):
+    PROPS[_p]['quick'] = PROPS[_p]['quick'] + [solve(15567, direct=1, missing=0, K=2)]
+    PROPS[_p]['thorough'] = PROPS[_p]['thorough'] + [solve(155567, direct=1, missing=0, K=3), solve(115567, direct=2, missing=0, K=2, named=0)]
